@@ -212,6 +212,7 @@ ServerReceive ==
     IN /\ p.role = "req" /\ Applicable(p, e)
        /\ (e = "ct_swap" => j # i /\ net[j].ct # p.ct) /\ (e # "ct_swap" => j = i)
        /\ (e # "none" => k = "peer")
+       /\ (e = "kidctx_add_right" => idc # "none")
        /\ bad' = bad \cup IF genuine /\ k = "peer" THEN JudgeDelivery("req", "none", TRUE, TRUE, res, r = q.ct.pt)
                            ELSE JudgeDelivery("req", IF k = "peer" THEN e ELSE "none", k = "peer", TRUE, res, r = p.ct.pt)
        /\ seen' = IF r # "reject" /\ k = "peer" THEN seen \cup {[ri |-> i, rid |-> ReqId(c.rid, q.opt.piv), m |-> r]} ELSE seen
@@ -245,6 +246,7 @@ ClientReceive ==
     IN /\ p.role = "resp" /\ Applicable(p, e)
        /\ (e = "ct_swap" => j # i /\ net[j].ct # p.ct) /\ (e # "ct_swap" => j = i)
        /\ (e # "none" => k = "peer")
+       /\ (e = "kidctx_add_right" => idc # "none")
        /\ bad' = bad \cup IF same # {} /\ k = "peer"
                              THEN LET x == CHOOSE y \in same : TRUE
                                   IN JudgeDelivery("resp", "none", TRUE, net[x].rid = rid, res, r = net[x].ct.pt)
